@@ -26,7 +26,8 @@ RULE = ("cases: every type expression with <=3 wrappers over the 5 specified sca
         "{inline literal, variable, variable with default, nullable variable with default at a non-null position, variable nested "
         "in a list/object literal}; plus HISTORIES: a schema that has been used, then derived (visibility transform hiding input fields / types, "
         "camel-case transform, `fields` setter, clone; one or two steps), checked against the derived schema's own declaration with the source's values "
-        "in the stream, then the source again; non-trivial = distinct (registry, argument type, default, route, value) whose value is not a "
+        "in the stream, then the source again; plus TREES: nested selections over an interface with two implementations that give the field "
+        "different argument sets/defaults, lists of objects, resolver errors, arguments rejected at depth 2-5; non-trivial = distinct (registry, argument type, default, route, value) whose value is not a "
         "bare scalar-at-scalar success (i.e. involves null, a wrapper, an enum, an input object, a boundary or a rejection)")
 ASSUMPTIONS = [
     "histories: the Lean model is stateless (a registry = what a schema DECLARES, by name); that a derived schema's coercion uses exactly what the "
@@ -42,13 +43,21 @@ ASSUMPTIONS = [
     "'structurally wrong' = array/object where a specified scalar is expected, non-string where an enum is expected, non-object where an input "
     "object is expected; the library's lenient scalar coercions (Int from numeric string / integral float / bool, String and ID from numbers, "
     "Boolean by truthiness of scalars, Float from numeric string) are pinned by the suite and are modelled, not flagged; Python `bool` is an `int`",
-    "custom scalars (default_scalar) are identities: any value conforms; literal/variable equivalence is claimed for them on strings and booleans only",
+    "custom scalars are PARAMETERS of the model (`Reg.customParse` / `Reg.customParseLiteral`: arbitrary partial functions, nothing assumed): a value "
+    "conforms iff the scalar's own parser produced it (`CustomOK`); `RegOK.customNotNone` (a parser never answers None to a non-null input) and, for "
+    "literal/variable equivalence only, `CustomAgree` (the scalar's two parsers agree) are hypotheses about that user code, with witnesses that they "
+    "cannot be dropped; default_scalar and two sample scalars (`Even`, `Tag`) are exercised by the correspondence",
     "nested variables inside list/object literals: validation (VariablesInAllowedPosition) has accepted the document",
 ]
 TRUSTED = [
+    "the behaviour of a custom scalar's own parse/parse_literal is a parameter of the theorems; the sample scalars used by the correspondence are written "
+    "twice (harness/corr/C07.py custom_scalar, lean/Driver/C07.lean sampleParse) and compared through the real ScalarType machinery",
     "extraction of the coerce_int range test and the _typed_coerce tables (Python ast -> Lean) in corr/C07.py; the finiteness guard of "
     "coerce_float is extracted as a 3-row table by evaluating the source's test expression on representatives of finite / inf / nan",
-    "Python builtins int(str, 10), float(str), float.is_integer, str(int), repr(float) are observed by the harness and passed to the model as annotations (modelled, not verified)",
+    "Python builtins int(str, 10), float(str) with correct rounding, float.is_integer, int(float) are MODELLED in Lean on ASCII lexemes "
+    "(PyGqlModel/PyNum.lean) and compared with the real builtins by the `pynum` stream; strings at numeric positions are ASCII in the generators "
+    "(Python also accepts non-ASCII digits and spaces: outside the lexeme model). Still taken from Python, never from Lean: repr(float) as the "
+    "wire spelling of a JSON float, and float(int) / float(text) -> repr when RESULT floats are compared (floats never cross the wire as numbers)",
 ]
 
 EXPLANATION = ("Theorems (Props/C07*.lean) are about the model of the code WITH proposed_fixes/C07-A1-A5.patch; the unchanged tree falsifies "
@@ -208,8 +217,54 @@ def float_guard():
     return out, [ast.get_source_segment(src, g) for g in guards]
 
 
+def dispatch_table(fn_name):
+    """the top-level `if/elif` chain of coerce_int: [(test, what the branch does)] in source order"""
+    tree = ast.parse(SCALARS_PY.read_text())
+    fn = next((n for n in tree.body if isinstance(n, ast.FunctionDef) and n.name == fn_name), None)
+    if fn is None:
+        raise Untranslatable(fn_name + " not found")
+    param = fn.args.args[0].arg
+    chain = next((st for st in fn.body if isinstance(st, ast.If) and isinstance(st.test, ast.Call)), None)
+    if chain is None:
+        raise Untranslatable("no isinstance chain in " + fn_name)
+    rows = []
+
+    def test_name(t):
+        if isinstance(t, ast.Call) and getattr(t.func, "id", None) == "isinstance" and isinstance(t.args[1], ast.Name):
+            return t.args[1].id
+        if isinstance(t, ast.Compare) and isinstance(t.ops[0], ast.Is) and isinstance(t.comparators[0], ast.Constant) and t.comparators[0].value is None:
+            return "None"
+        raise Untranslatable("test " + ast.dump(t))
+
+    def action(body):
+        if len(body) == 1 and isinstance(body[0], ast.Raise):
+            return "raise"
+        first = body[0]
+        if isinstance(first, ast.Assign) and isinstance(first.value, ast.Name) and first.value.id == param:
+            return "identity"
+        if (isinstance(first, ast.Assign) and isinstance(first.value, ast.Call) and getattr(first.value.func, "id", None) == "int"
+                and len(body) == 2 and isinstance(body[1], ast.If) and isinstance(body[1].body[0], ast.Raise)):
+            cmp_ = body[1].test
+            if isinstance(cmp_, ast.Compare) and isinstance(cmp_.ops[0], ast.NotEq):
+                return "int-if-equal"
+        if any(isinstance(x, ast.Call) and getattr(x.func, "id", None) == "int" and len(x.args) == 2 for st in body for x in ast.walk(st)) \
+                and any(isinstance(x, ast.Attribute) and x.attr == "is_integer" for st in body for x in ast.walk(st)):
+            return "int10-else-integral-float"
+        raise Untranslatable("branch body of %s: %s" % (fn_name, ast.dump(first)[:80]))
+    node = chain
+    while True:
+        rows.append((test_name(node.test), action(node.body)))
+        if len(node.orelse) == 1 and isinstance(node.orelse[0], ast.If):
+            node = node.orelse[0]
+        else:
+            rows.append(("else", action(node.orelse) if node.orelse else "pass"))
+            break
+    return rows
+
+
 def extract(ctx):
     consts, accepted, pysrc = int_range_test()
+    int_rows = dispatch_table("coerce_int")
     guard, guard_src = float_guard()
     table = literal_kind_table()
     lines = [
@@ -229,6 +284,10 @@ def extract(ctx):
         "def floatRejectsFinite : Bool := %s" % ("true" if guard["finite"] else "false"),
         "def floatRejectsInf : Bool := %s" % ("true" if guard["inf"] else "false"),
         "def floatRejectsNaN : Bool := %s" % ("true" if guard["nan"] else "false"),
+        "",
+        "/-- the `if / elif` chain of `coerce_int`, in source order: (what is tested, what the branch does). `bool` is a subclass of",
+        "    `int`, so a JSON boolean takes the first branch. -/",
+        "def coerceIntBranches : List (String × String) := [%s]" % ", ".join('("%s", "%s")' % r for r in int_rows),
         "",
         "/-- literal kinds admitted by each specified scalar's `parse_literal` (`_typed_coerce(f, *node classes)`) -/",
         "def literalKinds : List (String × List String) := [",
@@ -255,7 +314,7 @@ class World:
         self.types = {"Int": Int, "Float": Float, "String": String, "Boolean": Boolean, "ID": ID}
         for t in reg["types"]:
             if t["kind"] == "custom":
-                self.types[t["name"]] = default_scalar(t["name"])
+                self.types[t["name"]] = custom_scalar(t["name"], t.get("impl", "identity"))
             elif t["kind"] == "enum":
                 self.types[t["name"]] = EnumType(t["name"], [(n, v) for n, v in t["values"]])
         for t in reg["types"]:
@@ -419,6 +478,33 @@ class World:
             return ("err",)
         except Exception as e:  # noqa
             return ("internal", type(e).__name__)
+
+
+def custom_scalar(name, impl):
+    """the sample custom scalars: user code with its own `parse` / `parse_literal` (mirrored in lean/Driver/C07.lean)"""
+    from py_gql.lang import ast as _ast
+    from py_gql.schema import ScalarType
+    from py_gql.schema.scalars import default_scalar
+    if impl == "identity":
+        return default_scalar(name)
+
+    def parse(v):
+        out = U.custom_parse(impl, v)
+        if out[0] == "value":
+            return out[1]
+        if out[0] == "refused":
+            raise ValueError("%s refuses %r" % (name, v))
+        raise KeyError(name)                     # not ValueError/TypeError: ScalarType.parse lets it through
+
+    def parse_literal(node, _variables):
+        if impl == "even":
+            if not isinstance(node, _ast.IntValue):
+                raise TypeError("Invalid literal")
+            return parse(int(node.value))
+        if not isinstance(node, _ast.StringValue):
+            raise TypeError("Invalid literal")
+        return parse(node.value)
+    return ScalarType(name, serialize=lambda v: v, parse=parse, parse_literal=parse_literal)
 
 
 def arg(name, t, default=None, py=None):
@@ -1130,6 +1216,60 @@ def run_collisions(ctx):
                          {"reg": U.reg_to_jsonable(reg), "request": it, "impl": list(im), "model": list(mo), "input": repr(w[1])}, kind="correspondence")
 
 
+def gen_lexeme(rng):
+    k = rng.random()
+    if k < 0.25:
+        return repr(rng.choice([rng.uniform(-1e6, 1e6), rng.uniform(-1, 1) * 10 ** rng.randint(-320, 308), float(rng.randint(-2 ** 40, 2 ** 40)),
+                                5e-324, 2.2250738585072014e-308, 1.7976931348623157e308, 0.1, 1e22, 1e23, float(2 ** 53 + 1), -0.0, 4.35, 2.5,
+                                float(rng.randint(-2 ** 31 - 2, 2 ** 31 + 2)), float("inf"), float("nan")]))
+    if k < 0.5:
+        return rng.choice(["inf", "-inf", "nan", "Infinity", "-INFINITY", "+inf", "NaN", "-nan", "infinit", "1e400", "-1e400", "1e-400", "1e309",
+                           "1.7976931348623158e308", "1.7976931348623159e308", " 7 ", "1_0", "1__0", "_1", "1_", "+5", "-5", "+-5", "007", "0x10", "1 0",
+                           "\t12\n", "\x1f3", "", " ", "-", "+", "1e3", "1E3", "1e+3", "1e-3", "1e", "e5", ".5", "5.", ".", "1.e2", ".e2", "1_0.0_1e1_0",
+                           "1._5", "1_.5", "1e_5", "0.1e1", "12abc", "1.5.2", "--1", "1.0", "2.0e0", "1.0000000000000000001", "0.9999999999999999999",
+                           "123456789012345678901234567890", "-0.0", "0e999999999", "1e-999999999", "9007199254740993", "2147483648.0", "-2147483648.0",
+                           "2147483647", "-2147483648", "2147483648", "2147483647.0", "2147483647.5"])
+    return "".join(rng.choice("0123456789" * 3 + "._eE+-  _") for _ in range(rng.randint(1, 12)))
+
+
+def run_pynum(ctx, n):
+    """the lexeme model (PyGqlModel/PyNum.lean) against Python's own int(s, 10) / float(s) / is_integer / int(f), on ASCII lexemes"""
+    import math
+    from fractions import Fraction
+    if not ctx.model_ok:
+        return
+    lex = [gen_lexeme(ctx.rng) for _ in range(n)]
+    lex = [s_ for s_ in lex if all(ord(c) < 128 for c in s_)]
+    out = ctx.driver.ask([{"op": "pynum", "s": s_} for s_ in lex])
+    for s_, o in zip(lex, out):
+        ctx.count()
+        try:
+            pi = int(s_, 10)
+        except ValueError:
+            pi = None
+        try:
+            pf = float(s_)
+        except ValueError:
+            pf = "ERR"
+        m = o.get("flt")
+        ok = o.get("i10") == pi
+        if pf == "ERR":
+            ok = ok and m is None
+        elif m is None:
+            ok = False
+        elif math.isnan(pf):
+            ok = ok and m["cls"] == "nan"
+        elif math.isinf(pf):
+            ok = ok and m["cls"] == "inf" and m["neg"] == (pf < 0)
+        else:
+            ok = ok and m["cls"] == "finite" and Fraction(pf) == (-1 if m["neg"] else 1) * Fraction(m["m"]) * Fraction(2) ** m["e"] \
+                and m["neg"] == (math.copysign(1, pf) < 0) and m["int"] == (int(pf) if pf.is_integer() else None)
+        ctx.stat("pynum:%s" % ("int" if pi is not None else ("float" if pf != "ERR" else "neither")))
+        if not ok:
+            ctx.fail("corr:pynum:%s" % ("int10" if o.get("i10") != pi else "float"), "number lexeme: the Lean model of int()/float() and Python differ",
+                     {"lexeme": s_, "python_int10": pi, "python_float": repr(pf), "model": o}, kind="correspondence")
+
+
 def ty_depth(t):
     return 0 if t[0] == "named" else 1 + ty_depth(t[1])
 
@@ -1342,6 +1482,7 @@ def run(ctx):
     # corpus first
     run_corpus(ctx)
     run_collisions(ctx)
+    run_pynum(ctx, ctx.n(3000, 15000))
     # the hand-written registry: all type expressions up to 3 wrappers (quick: all <=2, a sample of depth 3)
     reg = U.fixed_registry()
     allt = U.all_types(names_of(reg), 3)
@@ -1366,7 +1507,8 @@ def run(ctx):
         run_registry(ctx, r, "rnd%d" % i, types, per_type=6 if quick else 10, depth=2,
                      max_cases=250 if quick else 1500, n_abstract=2 if quick else 6, n_trace=30 if quick else 200)
     # schemas with a past: used, then derived (visibility / camel-case transforms, `fields` setter, clone), then checked
-    from corr import C07_history
+    from corr import C07_history, C07_tree
+    C07_tree.run(ctx, sys.modules[__name__])
     C07_history.run(ctx, sys.modules[__name__])
     ctx.extra["int_range_test_source"] = int_range_test()[2]
     ctx.extra["float_finiteness_guard_source"] = float_guard()[1] or ["<none>"]
@@ -1392,6 +1534,9 @@ def replay(ctx, data, record=False):
     reg = U.reg_from_jsonable(inp["reg"])
     before = sum(f["count"] for f in ctx.found if f["kind"] == "property")
     chk = Checker(ctx, reg, "replay")
+    if inp.get("check") == "tree":
+        from corr import C07_tree
+        return C07_tree.replay(ctx, sys.modules[__name__], inp)
     if inp.get("check") == "trace":
         from py_gql import graphql_blocking
         specs = [[dict(a, type=U.ty_from_json(a["type"]), default=None if a["default"] is None else [dict_from_wire(a["default"]["v"])]) for a in sp]
